@@ -14,7 +14,7 @@
    allofunit <types> <uses>   the Go stage alone (what ProcessAllOf does to a hand-built catalog)
    allofspec <types> <uses>   spec_tree of every schema: "spec <rendering>" ("?" where undefined)
    allofcmp  <types> <uses>   compare_env: agree | rejected | modelfails | differs:<schema number>
-                              followed by the classes: " rootlevel=0|1 skeleton=0|1 arrays=0|1 rpc=0|1"
+                              followed by the classes: " rootlevel=0|1 skeleton=0|1 skeleton2=0|1 arrays=0|1 rpc=0|1"
    rendering := schema (";" schema)* "|" schema (";" schema)*       (types | use sites)
    schema    := name ":" body          body := "{" kid,... "}" | "[" kid,... "]" | "s" | "~" | "?"
    kid       := key "<" inheritedFrom ">" [ "{" kid,... "}" | "[" kid,... "]" ]      (key empty for array items) *)
@@ -169,5 +169,5 @@ let () =
      | VRejectedBoth -> "rejected"
      | VModelFails -> "modelfails"
      | VDiffers n -> "differs:" ^ string_of_int (int_of_nat n))
-    ^ " rootlevel=" ^ b01 (env_root_level e) ^ " skeleton=" ^ b01 (env_skeleton e) ^ " arrays=" ^ b01 (negb (env_no_array_allof e))
+    ^ " rootlevel=" ^ b01 (env_root_level e) ^ " skeleton=" ^ b01 (env_skeleton e) ^ " skeleton2=" ^ b01 (env_skeleton2 e) ^ " arrays=" ^ b01 (negb (env_no_array_allof e))
     ^ " rpc=" ^ b01 (negb (env_no_rpc_allof e)))
